@@ -34,6 +34,9 @@ type scenario struct {
 	MixedI2r bool             `json:"mixed_i2r"`        // last consumer uses the non-handshaked i2r (outside the property's premise)
 	Tight    int              `json:"tight"`            // >0: consumers have no stall control, loop is `i2rw; (Tight-1 × nop); j 0`
 	Delays   map[string]int32 `json:"delays,omitempty"` // simulator only: fixed simulated delay per opcode
+	// FanIn > 0: two producers feed ONE consumer through two bonds; the consumer reads input 0 then input 1 with
+	// FanIn-1 instructions between the two reads (1 = back to back). K is 1.
+	FanIn int `json:"fan_in,omitempty"`
 }
 
 func (sc scenario) pcRecv() uint64 {
@@ -44,6 +47,9 @@ func (sc scenario) pcRecv() uint64 {
 }
 
 func (sc scenario) nin() int {
+	if sc.FanIn > 0 {
+		return 3
+	}
 	if sc.Tight > 0 {
 		return 1
 	}
@@ -55,6 +61,24 @@ const step = 64
 func (sc scenario) system() bmsys.System {
 	prodOps := []string{"rset", "i2r", "jz", sc.SendOp, "add", "j"}
 	sys := bmsys.System{}
+	if sc.FanIn > 0 {
+		for p := 0; p < 2; p++ {
+			sys.Procs = append(sys.Procs, bmsys.Proc{
+				Spec:    bmgen.ArchSpec{Rsize: 8, R: 2, N: 1, M: 1, O: 3, Ops: prodOps},
+				Program: []string{"rset r1 " + strconv.Itoa(step), "i2r r2 i0", "jz r2 1", sc.SendOp + " r0 o0", "add r0 r1", "j 1"},
+			})
+			sys.Bonds = append(sys.Bonds, [2]string{fmt.Sprintf("p%di0", p), fmt.Sprintf("i%d", p)})
+		}
+		prog := []string{"i2r r2 i2", "jz r2 0", "i2rw r0 i0"}
+		for i := 1; i < sc.FanIn; i++ {
+			prog = append(prog, "nop")
+		}
+		prog = append(prog, "i2rw r3 i1", "j 0")
+		sys.Procs = append(sys.Procs, bmsys.Proc{Spec: bmgen.ArchSpec{Rsize: 8, R: 2, N: 3, M: 0, O: 3, Ops: []string{"i2r", "jz", "i2rw", "nop", "j"}}, Program: prog})
+		sys.ExtIn = 3
+		sys.Bonds = append(sys.Bonds, [2]string{"p2i2", "i2"}, [2]string{"p2i0", "p0o0"}, [2]string{"p2i1", "p1o0"})
+		return sys
+	}
 	sys.Procs = append(sys.Procs, bmsys.Proc{
 		Spec:    bmgen.ArchSpec{Rsize: 8, R: 2, N: 1, M: 1, O: 3, Ops: prodOps},
 		Program: []string{"rset r1 " + strconv.Itoa(step), "i2r r2 i0", "jz r2 1", sc.SendOp + " r0 o0", "add r0 r1", "j 1"},
@@ -101,6 +125,7 @@ type obs struct {
 type ghost struct {
 	issued uint8   // values offered so far, mod 4
 	recv   []uint8 // values received per consumer, mod 4
+	iss    []uint8 // fan-in scenarios: values offered per producer (recv is then per bond)
 }
 
 func (g ghost) key() string {
@@ -109,17 +134,23 @@ func (g ghost) key() string {
 	for _, r := range g.recv {
 		sb.WriteByte('0' + r)
 	}
+	for _, r := range g.iss {
+		sb.WriteByte('0' + r)
+	}
 	return sb.String()
 }
 
 func (g ghost) clone() ghost {
-	return ghost{g.issued, append([]uint8{}, g.recv...)}
+	return ghost{g.issued, append([]uint8{}, g.recv...), append([]uint8(nil), g.iss...)}
 }
 
 type event struct{ class, detail string }
 
 // monitor advances the ghost across one tick (before -> after) and returns protocol violations.
 func monitor(sc scenario, g *ghost, before, after obs) (evs []event, progress bool) {
+	if sc.FanIn > 0 {
+		return monitorFanIn(sc, g, before, after)
+	}
 	pcRecv := sc.pcRecv()
 	// consumers first: a value received in this tick was issued in an earlier one
 	for c := 1; c <= sc.K; c++ {
@@ -179,6 +210,46 @@ func monitor(sc scenario, g *ghost, before, after obs) (evs []event, progress bo
 			evs = append(evs, event{"harness-payload", fmt.Sprintf("producer payload %d, expected %d", after.r0[0], want)})
 		}
 		g.issued = (g.issued + 1) & 3
+	}
+	return
+}
+
+// monitorFanIn: two independent bonds (producer b -> input b of the consumer, which is processor 2).
+func monitorFanIn(sc scenario, g *ghost, before, after obs) (evs []event, progress bool) {
+	const cons = 2
+	pcR := []uint64{2, 2 + uint64(sc.FanIn)}
+	got := []uint64{after.r0[cons], after.r3[cons]}
+	for b := 0; b < 2; b++ {
+		if before.pc[cons] == pcR[b] && after.pc[cons] == pcR[b]+1 {
+			lag := (g.iss[b] - g.recv[b]) & 3
+			want := uint64(g.recv[b]) * step & 0xff
+			switch {
+			case lag == 0 && got[b] == uint64((g.recv[b]-1)&3)*step&0xff:
+				evs = append(evs, event{"duplicate", fmt.Sprintf("the consumer captured %d again on input %d (no new value had been issued)", got[b], b)})
+				continue
+			case lag == 0:
+				evs = append(evs, event{"phantom", fmt.Sprintf("the consumer captured %d on input %d but no value was outstanding", got[b], b)})
+				continue
+			case got[b] != want:
+				evs = append(evs, event{"wrong-value", fmt.Sprintf("the consumer captured %d on input %d, expected the next value %d", got[b], b, want)})
+			}
+			g.recv[b] = (g.recv[b] + 1) & 3
+			progress = true
+		}
+	}
+	for b := 0; b < 2; b++ {
+		if before.pc[b] == pcSend && after.pc[b] == pcSend+1 && g.recv[b] != g.iss[b] {
+			evs = append(evs, event{"producer-passed-early", fmt.Sprintf("producer %d left its %s while the consumer had not received the value (lost value)", b, sc.SendOp)})
+		}
+		if before.pc[b] != pcSend && after.pc[b] == pcSend {
+			if g.recv[b] != g.iss[b] {
+				evs = append(evs, event{"issue-overrun", fmt.Sprintf("producer %d offered a new value while the consumer lagged", b)})
+			}
+			if want := uint64(g.iss[b]) * step & 0xff; after.r0[b] != want {
+				evs = append(evs, event{"harness-payload", fmt.Sprintf("producer %d payload %d, expected %d", b, after.r0[b], want)})
+			}
+			g.iss[b] = (g.iss[b] + 1) & 3
+		}
 	}
 	return
 }
@@ -334,7 +405,10 @@ func explore(sc scenario, backend string, maxStates int) outcome {
 		},
 	}
 	var init node
-	init.g = ghost{0, make([]uint8, sc.K)}
+	init.g = ghost{0, make([]uint8, sc.K), nil}
+	if sc.FanIn > 0 {
+		init.g = ghost{0, make([]uint8, 2), make([]uint8, 2)}
+	}
 	if backend == "hdl" {
 		init.hdl = h0.Initial
 		init.bk = string(h0.Initial)
@@ -416,6 +490,9 @@ func main() {
 		scenario{Name: "r2owa-i2rw-gap1-k1", SendOp: "r2owa", K: 1, Tight: 1},
 		scenario{Name: "r2owa-i2rw-gap2-k1", SendOp: "r2owa", K: 1, Tight: 2},
 		scenario{Name: "r2owa-i2rw-gap3-k1", SendOp: "r2owa", K: 1, Tight: 3},
+		// fan-in: two producers, one consumer reading both bonds back to back / with one instruction in between
+		scenario{Name: "fan-in-2-back-to-back", SendOp: "r2owa", K: 1, FanIn: 1},
+		scenario{Name: "fan-in-2-gap1", SendOp: "r2owa", K: 1, FanIn: 2},
 		// three consumers: the smallest fan-out with a consumer that is neither the first nor the last bonded input
 		scenario{Name: "r2owa-i2rw-k3", SendOp: "r2owa", K: 3},
 	)
@@ -521,6 +598,9 @@ func main() {
 		} else {
 			shape += ",fan-out=1"
 		}
+		if o.sc.FanIn > 0 {
+			shape = fmt.Sprintf("fan-in-2,reads-%d-apart", o.sc.FanIn)
+		}
 		keys := make([]string, 0, len(o.violations))
 		for k := range o.violations {
 			keys = append(keys, k)
@@ -566,7 +646,10 @@ func doReplay(run *vlib.Run) {
 		panic(err)
 	}
 	nin := sc.nin()
-	g := ghost{0, make([]uint8, sc.K)}
+	g := ghost{0, make([]uint8, sc.K), nil}
+	if sc.FanIn > 0 {
+		g = ghost{0, make([]uint8, 2), make([]uint8, 2)}
+	}
 	var h *bmsys.HDL
 	var s *bmsys.SIM
 	var before obs
